@@ -33,18 +33,18 @@ type frame struct {
 }
 
 type Interp struct {
-	prog    *ssa.Program
-	ex      *Explorer
-	p       *Path
-	globals map[*ssa.Global]Ptr
-	inited  map[*ssa.Package]bool
-	depth   int
-	top     *frame
-	overrides map[string]Val
+	prog       *ssa.Program
+	ex         *Explorer
+	p          *Path
+	globals    map[*ssa.Global]Ptr
+	inited     map[*ssa.Package]bool
+	depth      int
+	top        *frame
+	overrides  map[string]Val
 	inOverride map[string]bool
 	abstracted map[string]bool
-	inInit int
-	panicking []*targetPanic
+	inInit     int
+	panicking  []*targetPanic
 }
 
 func newBig(s string) (*big.Int, bool) { return new(big.Int).SetString(s, 10) }
